@@ -118,7 +118,13 @@ func Main(id, tier string, seed int64, budget time.Duration, root, out string) i
 	seenKnown := map[string]bool{}
 	seenClass := map[string]int{}
 	internal := false
+	seenCase := map[string]bool{}
 	for _, v := range viols {
+		if ck := v.Kind + "\x00" + string(v.Case); seenCase[ck] {
+			continue
+		} else {
+			seenCase[ck] = true
+		}
 		// reproduce through the replay path before believing it
 		ok := true
 		var got, want string
